@@ -344,13 +344,18 @@ def subset(check, prog):
     od = intern(('attr', ('attr', sym('self'), 'data'), 'original_dims'))
     stores = {e['key']: e['value'] for e in it.effects if e['kind'] == 'setitem' and
               e['target_src'].startswith('schema')}
-    for ax in ('x', 'y'):
+    for ax in ('x', 'y', 'z'):
         want = intern(('idx', od, ('const', ax)))
         got = stores.get(('const', ax))
+        if ax == 'z' and got is not None and got[0] == 'ite' and \
+                got[1] == ('cmp', 'in', ('const', 'z'), od):
+            got = got[2]        # (a record without z leaves the plane alone)
         check.require(got == want, 'D2-original-axes', 'FitResult.forward ' + ax,
                       'the rebuilt detector takes its %s axis from original_dims' % ax,
                       loc, fail_detail='schema[%r] is %s: for a cropped / shifted image '
-                      'the rebuilt grid starts at 0 instead of the original origin' % (
+                      '(or a detector plane away from z = 0) the rebuilt grid starts '
+                      'at 0 instead of the original origin, and the hologram of a '
+                      'subset fit is not the forward model on the data\'s pixels' % (
                           ax, 'never assigned' if got is None else show(got)[:80]))
     dg = [c for c in it.calls if c['name'] == MD + 'detector_grid']
     ok = len(dg) == 1
